@@ -22,6 +22,7 @@ HEADER_LINES = 1
 CASE_TIMEOUT = 5.0
 CL = 64
 HDR = 8
+LEAVES = ["update_cached_remain", "w_alloc_cachelines", "w_alloc_bytes", "w_move", "r_fetch", "r_move"]
 KNOWN_PREFIX = "drained ring refuses a message of at most half its size"
 
 RULE = ("sequential: op scripts (alloc/write/commit/fetch/rmove, protocol-guarded) on heap-backed rings of 4..64 cache "
@@ -34,6 +35,7 @@ RULE = ("sequential: op scripts (alloc/write/commit/fetch/rmove, protocol-guarde
 TRUSTED_BASE = [
     "modelled, not verified: the mmap/SysV key handling of shm.c (smoke-tested through muggle_shm_ringbuf_open on a real segment; bulk cases interpose muggle_shm_open with an exact-size heap block); uint32 cursor arithmetic is modelled with explicit mod 2^32",
     "concurrent layer: sequentially consistent interleaving of the atomic cursor operations plus release/acquire views for the plain data lines (stand-in for C11; DRF-SC assumed), spinlock = test-and-set / clear with the orders extracted from the code; real weak-memory reorderings cannot be exhibited on x86 under a serialised run",
+    "second tie (translator kind): lib/props/c08_slice.py slices the integer content of update_cached_remain, w_alloc_cachelines, w_alloc_bytes, w_move, r_fetch, r_move out of the clang JSON AST of the C text of this run (atomic builtins -> field reads/writes, header pointers followed back to line indices into two word arrays, file-local helpers inlined in continuation-passing style, pointer results projected to 0 / line+1) and the shared translator lib/leaftrans.py turns it into Gallina (coq/gen/Params_C08.v gen_*); obligations gen_*_matches_model prove them equal to reference functions on the whole ring domain by a shape-independent decision tactic, and the model's functions equal to the same references; trusted: clang 14 AST, the slicer and the translator",
     "constants (cache line 64, header 8 bytes, field offsets, footprint macro table 0..4224) and the memory orders of the cursor sites are re-extracted from the code into coq/gen/Params_C08.v on every run and discharged by Properties_C08.v",
 ]
 ASSUMPTIONS = ["message length >= 1 (length 0 is the wrap marker's encoding); one reader; writers serialised by the write lock; "
@@ -42,6 +44,7 @@ ASSUMPTIONS = ["message length >= 1 (length 0 is the wrap marker's encoding); on
 EVIDENCE_NOTES = [
     "sequential theorems proved in full (shm_seq_refines_fifo, shm_alloc_no_overlap, shm_indices_in_range, shm_drained_accepts_partial with the exact iff, shm_drained_half_refuted); the property's clause 'a drained ring accepts up to half its size' is REFUTED (known finding drained-half)",
     "concurrent layer proved in full: shm_conc_inv_reachable (reachable-state invariant CInv of C08/ProofsConcInv.v for every schedule, ring size, number of writers under the write lock or one writer without it, script, retry bound and kill point; consequences: no uncovered plain read under the extracted memory orders, no store into an unread message or the live marker, delivered is a prefix of committed with exact line / length / payload tag, unread messages intact in memory) and shm_crash_safe as its corollary (any schedule followed by reader-only steps); shm_reader_only_frame holds from any state.  The interleaving model is tied to the code on every run by trace acceptance (1 reader + 1 writer, 2-3 locked writers, writer killed after each atomic operation) with the model's ghost monitors and the independent trace monitor",
+    "translator tie: an edit of shm_ring_buffer.c that changes the value of cached_remain / write_cursor / read_cursor / the cached header line / the header words written / the NULL-or-line result of one of the six functions anywhere in the domain, or makes it unsliceable, breaks a gen_*_matches_model obligation even when no generated history reaches the difference; guard clauses, hoisted locals, helper functions and signed/unsigned reformulations with the same value keep it (checked on refactored/C08-A, C08-B).  Not in the translator tie (differential + trace acceptance only): muggle_shm_ringbuf_open's size computation (calls muggle_next_pow_of_2, memset, shm), the payload bytes, the memory orders (extracted separately), is_ready",
     "not covered by theorems (modelled): payload bytes are abstracted to a tag per message in the interleaving model (byte-exactness is proved in the sequential model and checked by the drivers); the SC + release/acquire-view memory model stands in for C11",
 ]
 
@@ -169,6 +172,25 @@ def gen_params(ctx):
         else:
             fields.append("%s := %s" % (field, MO.get(next(iter(mos)), "MoNone")))
     lines.append("Definition code_params : params :=\n  {| " + ";\n     ".join(fields) + " |}.")
+    # second tie (DESIGN.md 4.4): the integer content of the six functions, sliced out of the C text of this
+    # run (lib/props/c08_slice.py) and translated by the shared translator lib/leaftrans.py
+    lines.append("")
+    lines.append("(* --- integer leaves re-translated from muggle/c/sync/shm_ring_buffer.c on this run --- *)")
+    lines.append("From MV Require Import Lib.Leaf.")
+    import leaftrans as L
+    from props import c08_slice as S
+    flags = ["-std=gnu11", "-I" + V.REPO, "-I" + V.GEN_INC, "-DNDEBUG"]
+    src = os.path.join(V.REPO, REPO_SOURCES[0])
+    sizeofs = {}
+    if vals.get("hdr_size", "").isdigit():
+        sizeofs["muggle_shm_ringbuf_data_hdr_t"] = int(vals["hdr_size"])
+    for leaf in LEAVES:
+        try:
+            lines.append(S.translate_sliced(src, "muggle_shm_ringbuf_" + leaf, flags, "gen_" + leaf, sizeofs)[0])
+        except L.LeafError as e:
+            lines.append("(* slicer / translator error for %s: %s *)\n" % (leaf, str(e).replace("*)", "* )")))
+        except Exception as e:      # a broken AST must break the obligation, not the machinery
+            lines.append("(* slicer failure for %s: %s *)\n" % (leaf, str(e)[:200].replace("*)", "* )")))
     return "\n".join(lines) + "\n"
 
 
